@@ -1053,13 +1053,15 @@ class Machine:
             return self.operand(cfg, fr, r['a'])
         if rv == 'ref' or rv == 'rawptr':
             pj = r['p'].get('p') or []
-            if pj and pj[-1]['k'] == 'deref':
+            # a place whose own type is a (fat) pointer is a cell holding that pointer: `&mut *x` with x: &mut &mut [u8]
+            holds_ptr = self.local_ty(fr, r['p']).get('k') in ('ref', 'ptr')
+            if pj and pj[-1]['k'] == 'deref' and not holds_ptr:
                 inner = self.read_place(cfg, fr, {'l': r['p']['l'], 'p': pj[:-1]})
                 if isinstance(inner, (Slice, Str)):
                     return inner  # reborrow of a fat pointer
             key, path = self.resolve(cfg, fr, r['p'])
             cur = self.read_path(st, key, path)
-            if isinstance(cur, Slice) and r['p'].get('p') and r['p']['p'][-1]['k'] == 'deref':
+            if isinstance(cur, Slice) and r['p'].get('p') and r['p']['p'][-1]['k'] == 'deref' and not holds_ptr:
                 return cur  # reborrow of a slice
             return Ref(key, path, r.get('mut', False), rv == 'rawptr')
         if rv == 'bin':
